@@ -76,6 +76,8 @@ func readComcastEbp(data []byte) (ebp *comcastEbp, err error) {
 	}
 
 	index := uint8(0)
+	// short reports whether n more bytes cannot be read at index (which is a uint8 and must not wrap)
+	short := func(n int) bool { return int(index)+n > len(data) || int(index)+n > 0xFF }
 
 	ebp.DataFieldTag = data[index]
 	index += uint8(1)
@@ -94,22 +96,34 @@ func readComcastEbp(data []byte) (ebp *comcastEbp, err error) {
 	}
 
 	if ebp.ExtensionFlag() {
+		if short(1) {
+			return nil, gots.ErrInvalidEBPLength
+		}
 		ebp.ExtensionFlags = data[index]
 		index += uint8(1)
 	}
 
 	if ebp.SapFlag() {
+		if short(1) {
+			return nil, gots.ErrInvalidEBPLength
+		}
 		ebp.SapType = data[index]
 		index += uint8(1)
 	}
 
 	if ebp.GroupingFlag() {
+		if short(1) {
+			return nil, gots.ErrInvalidEBPLength
+		}
 		group := data[index]
 		ebp.Grouping = append(ebp.Grouping, group)
 		index += uint8(1)
 	}
 
 	if ebp.TimeFlag() {
+		if short(8) {
+			return nil, gots.ErrInvalidEBPLength
+		}
 		ebp.TimeSeconds = binary.BigEndian.Uint32(data[index : index+4])
 		index += uint8(4)
 
